@@ -178,10 +178,11 @@ theorem gdDecode_narrow (v : GdInfo) (csum rsv : Nat) (tail : Bytes) (gdSize : N
 /-! ### inode addressing -/
 
 /-- descriptors well formed for a geometry: one table of `inodesPerGroup*inodeSize` bytes per group,
-    below 2^64 bytes, at most 2^32 bytes long, tables of different groups disjoint -/
+    ending below 2^63 bytes (int64 offsets), at most 2^32 bytes long, tables of different groups disjoint -/
 def TablesWF (g : InoGeo) (tables : List Nat) : Prop :=
   0 < g.inodesPerGroup ∧ 0 < g.inodeSize ∧ g.inodesPerGroup * g.inodeSize ≤ 4294967296 ∧
-  (∀ i, i < tables.length → tables.getD i 0 * g.blockSize < 18446744073709551616) ∧
+  (∀ i, i < tables.length →
+    tables.getD i 0 * g.blockSize + g.inodesPerGroup * g.inodeSize ≤ 9223372036854775808) ∧
   (∀ i j, i < j → j < tables.length →
     tables.getD i 0 * g.blockSize + g.inodesPerGroup * g.inodeSize ≤ tables.getD j 0 * g.blockSize ∨
     tables.getD j 0 * g.blockSize + g.inodesPerGroup * g.inodeSize ≤ tables.getD i 0 * g.blockSize)
@@ -205,7 +206,9 @@ theorem inodeLoc_valid (g : InoGeo) (tables : List Nat) (h : TablesWF g tables) 
   rw [if_neg (by omega)]
   simp only []
   rw [if_neg (by omega)]
-  rw [Nat.mod_eq_of_lt (h64 _ hbg), Nat.mod_eq_of_lt (by omega)]
+  have h63 := h64 _ hbg
+  rw [Nat.mod_eq_of_lt (a := _ * g.blockSize) (by omega), Nat.mod_eq_of_lt (a := _ * g.inodeSize) (by omega),
+    Nat.mod_eq_of_lt (by omega)]
 
 theorem inodeLoc_disjoint (g : InoGeo) (tables : List Nat) (h : TablesWF g tables) (n m : Nat)
     (hn1 : 1 ≤ n) (hn2 : n ≤ tables.length * g.inodesPerGroup)
